@@ -21,7 +21,11 @@ let run_case (line : string) : string =
       let (_, prog) = parse_filter f in
       (match prog with Some p when not (returns p) -> failwith "ill-formed filter body" | _ -> ());
       let (rid, r0) = IngressModel.reg_register IngressModel.reg_new in
-      let st = ref (r0, sm_init) in
+      let st = ref ((r0, sm_init), cnt0) in
+      (* the connection's own provenance (read_from_router): the router's ingress id and address, AS0 *)
+      let cn = conn_prov rid (n 0) in
+      let show_cnt (c : bcnt) =
+        "n:" ^ join "." (Stdlib.List.init 7 (fun j -> pn (c.bc_recv (n j)))) ^ ",p" ^ pn c.bc_proc ^ ",i" ^ pn c.bc_inval in
       let mo = ref [] and so = ref [] and k1 = ref [] in
       let idn reg id =
         if id = rid then "r" else
@@ -41,26 +45,28 @@ let run_case (line : string) : string =
         | RibModel.UPass -> "other" in
       let nonempty l = Stdlib.List.filter (fun s -> s <> "") l in
       Stdlib.List.iter (fun op ->
-        let (m, a, legacy) : msg * fattrs * bool = match op with
-          | ["I"] -> (MInit, parse_attrs "-/-/-/-", false)
-          | ["T"] -> (MTerm, parse_attrs "-/-/-/-", false)
-          | ["S"; i] -> (MStats (pph_of (i_of i)), parse_attrs "-/-/-/-", false)
-          | ["U"; i] -> (MPeerUp (pph_of (i_of i), false), parse_attrs "-/-/-/-", false)
-          | ["D"; i] -> (MPeerDown (pph_of (i_of i)), parse_attrs "-/-/-/-", false)
+        let (m, a, legacy) : bmsg * fattrs * bool = match op with
+          | ["I"] -> (BMsg MInit, parse_attrs "-/-/-/-", false)
+          | ["T"] -> (BMsg MTerm, parse_attrs "-/-/-/-", false)
+          | ["S"; i] -> (BMsg (MStats (pph_of (i_of i))), parse_attrs "-/-/-/-", false)
+          | ["X"; i] -> (BMirror (pph_of (i_of i)), parse_attrs "-/-/-/-", false)
+          | ["U"; i] -> (BMsg (MPeerUp (pph_of (i_of i), false)), parse_attrs "-/-/-/-", false)
+          | ["D"; i] -> (BMsg (MPeerDown (pph_of (i_of i))), parse_attrs "-/-/-/-", false)
           | ["R"; i; tag; a; ann; wd] ->
               let (_, _, as4) = peers.(i_of i) in
-              (MRoute (pph_of (i_of i), Some (URoutes (n 0, plist ann, n (i_of tag), n 0, plist wd))), parse_attrs a, not as4)
+              (BMsg (MRoute (pph_of (i_of i), Some (URoutes (n 0, plist ann, n (i_of tag), n 0, plist wd)))), parse_attrs a, not as4)
           | _ -> failwith ("bad op: " ^ join " " op) in
-        let inp = bmp_view rid m a legacy in
-        let (st1, ds) = bmp_unit true FilterGlue.render_bmp prog rid !st (m, inp) in
-        let (st1s, ds') = bmp_unit false FilterGlue.render_msg_spec prog rid !st (m, inp) in
+        let inp = bmp_view cn m a legacy in
+        let (st1, ds) = bmp_unit_cnt true FilterGlue.render_bmp prog rid !st (m, inp) in
+        let (st1s, ds') = bmp_unit_cnt false FilterGlue.render_msg_spec prog rid !st (m, inp) in
         (* predicates as the code has them, every entry sent: differs from the model only by finding K1 *)
-        let (st1k, dsk) = bmp_unit true FilterGlue.render_msg_spec prog rid !st (m, inp) in
-        let tok (st', d) =
+        let (st1k, dsk) = bmp_unit_cnt true FilterGlue.render_msg_spec prog rid !st (m, inp) in
+        let tok ((st', c'), d) =
           let reg = fst st' in
           [ show_osms_with (idn reg) (FilterGlue.outs_of d);
             "upd:[" ^ join "," (nonempty (Stdlib.List.map (show_upd reg) (FilterGlue.upds_of d))) ^ "]";
-            "ph:" ^ pn (phase_idx (snd st').sm_phase) ] in
+            "ph:" ^ pn (phase_idx (snd st').sm_phase);
+            show_cnt c' ] in
         st := st1;
         mo := Stdlib.List.rev (tok (st1, ds)) @ !mo;
         so := Stdlib.List.rev (tok (st1s, ds')) @ !so;
